@@ -100,7 +100,13 @@ def dyn_desc_value():
                 val["pform"] = draw(st.sampled_from(forms))
             else:
                 val["form"] = "typed"
-        return {"k": "dyn", "types": types, "count": -1}, val
+        count = -1
+        if f != "L" and "L" not in types:
+            # a count limit on a Dynamic item counts ELEMENTS of the held value (data items XYPOS [2], RSINF [3], LIMITMAX [1] ...),
+            # whatever their byte width: exactly at the limit, with room to spare, or unlimited
+            n = len(gi.expand(item))
+            count = draw(st.sampled_from([-1, -1, n, n, n + 1, n + 5])) if n > 0 else draw(st.sampled_from([-1, -1, 3]))
+        return {"k": "dyn", "types": types, "count": count}, val
 
     return _s()
 
@@ -164,6 +170,9 @@ def value_for(desc):
                 item = {"f": "L", "v": draw(st.lists(_leaf_no_j(), max_size=3))}
             else:
                 item = draw(gi.leaf(f, allow_nan=True))
+                c = desc.get("count", -1)
+                if c >= 0 and len(gi.expand(item)) > c:  # the limit counts elements
+                    item = {"f": item["f"], "v": list(gi.expand(item))[:c]}
             return {"item": item, "form": "typed"}
 
         return _d()
@@ -182,6 +191,20 @@ def value_for(desc):
         return {"v": [draw(value_for(d)) for d in desc["fields"]], "form": draw(st.sampled_from(["list", "dict"]))}
 
     return _l()
+
+
+def _over_count(desc, value):
+    """True if some leaf / Dynamic value holds more elements than the count limit of its descriptor. Generated cases never
+    do (by construction); the witness of the repaired 'count limit bypassed by a wrapped value' defect does: if such a value
+    is ACCEPTED it must still round-trip, if it is refused that is correct."""
+    k = desc["k"]
+    if k in ("leaf", "dyn"):
+        c = desc.get("count", -1)
+        it = value["item"]
+        return c >= 0 and it["f"] != "L" and len(gi.expand(it)) > c
+    if k == "array":
+        return any(_over_count(desc["of"], v) for v in value["v"])
+    return any(_over_count(d, v) for d, v in zip(desc["fields"], value["v"]))
 
 
 # --------------------------------------------------------------------------------------------
@@ -231,6 +254,8 @@ def check_case(case):
             obj = make()
             obj.set(sg.pyvalue(desc, value))
     except Exception as exc:  # the value is in the type's E5 range: constructor must accept it
+        if _over_count(desc, value) and isinstance(exc, ValueError):
+            return None  # more elements than the item's count limit: refusing is the documented behaviour (regression witnesses only)
         return Failure(fb or f"construct:{type(exc).__name__}:{_where(desc, value)}", case, _exc(exc), "value accepted")
     # encode
     try:
